@@ -460,6 +460,12 @@ func (ctx *RenderContext) CallMacro(w io.Writer, name string, args []interface{}
 
 // CallFunction calls a function with the given arguments
 func (ctx *RenderContext) CallFunction(name string, args []interface{}) (interface{}, error) {
+	// Enforce the sandbox policy wherever a function is called from
+	if ctx.sandboxed && ctx.env != nil && ctx.env.securityPolicy != nil &&
+		!ctx.env.securityPolicy.IsFunctionAllowed(name) {
+		return nil, NewFunctionViolation(name)
+	}
+
 	// Check if it's a function in the environment
 	if ctx.env != nil {
 		if fn, ok := ctx.env.functions[name]; ok {
